@@ -111,17 +111,58 @@ def replyApplied (strict : Bool) (s : ClientSt) (doPurge : Bool) (init : List Ch
     additional monitor does not hold notifications back -/
 def monitorStartPinned (s : ClientSt) : ClientSt := s
 
+/-! ### losing the connection and coming back (handleDisconnectNotification, connect(reconnect = true)) -/
+
+/-- the connection is lost: updates are held back from now on; those held back
+    for the old connection are dropped -/
+def onDisconnect (s : ClientSt) : ClientSt := { s with deferring := true, deferred := [] }
+
+/-- `connect(reconnect = true)` before it restarts the monitors (as repaired):
+    with several monitors every reply is a complete dump, so the cache is purged
+    once, here -/
+def reconnectBegin (nMonitors : Nat) (s : ClientSt) : ClientSt :=
+  if nMonitors > 1 then { s with cache := purge s.cache } else s
+
+/-- the reply of a restarted monitor applied (as repaired): a single monitor
+    purges unless the server knew its last transaction; nothing is replayed and
+    updates stay deferred until every monitor is back -/
+def restartReply (strict : Bool) (s : ClientSt) (nMonitors : Nat) (found : Bool) (init : List Change) : ClientSt :=
+  let c0 := if nMonitors == 1 && !found then purge s.cache else s.cache
+  match applyAll strict c0 init with
+  | .ok c1 => { s with cache := c1 }
+  | .error _ => { s with cache := c0, failed := true }
+
+/-- `connect(reconnect = true)` after the last monitor is back (as repaired) -/
+def reconnectEnd (strict : Bool) (s : ClientSt) : ClientSt :=
+  match replayDeferred strict s.cache s.deferred with
+  | .ok c => { s with cache := c, deferring := false, deferred := [] }
+  | .error _ => { s with deferring := false, deferred := [], failed := true }
+
+/-- the pinned `monitor(reconnecting = true)`: every restarted monitor purges the
+    whole cache when there are several monitors, replays what was deferred and
+    lets updates flow again -/
+def restartReplyPinned (strict : Bool) (s : ClientSt) (nMonitors : Nat) (found : Bool) (init : List Change) : ClientSt :=
+  replyApplied strict s (nMonitors > 1 || !found) init
+
 /-- client actions in the order its goroutines perform them -/
 inductive Action where
   | start                                     -- Monitor() called
   | notif (n : List Change)                   -- a notification handled
   | reply (doPurge : Bool) (init : List Change) -- the monitor reply applied
+  | disconnect                                -- the connection is lost
+  | reBegin (nMonitors : Nat)                 -- reconnected; about to restart the monitors
+  | reReply (nMonitors : Nat) (found : Bool) (init : List Change) -- a restarted monitor's reply applied
+  | reEnd                                     -- all monitors restarted
   deriving Repr
 
 def step (strict : Bool) (pinned : Bool) (s : ClientSt) : Action → ClientSt
   | .start => if pinned then monitorStartPinned s else monitorStart s
   | .notif n => onNotification strict s n
   | .reply p i => replyApplied strict s p i
+  | .disconnect => onDisconnect s
+  | .reBegin n => if pinned then s else reconnectBegin n s
+  | .reReply n f i => if pinned then restartReplyPinned strict s n f i else restartReply strict s n f i
+  | .reEnd => if pinned then s else reconnectEnd strict s
 
 def run (strict : Bool) (pinned : Bool) (s : ClientSt) (as : List Action) : ClientSt :=
   as.foldl (step strict pinned) s
